@@ -95,6 +95,19 @@ def run(ctx, report):
                 # bank code one longer than bank + branch together (a combined-width code is split, not rejected)
                 vals[c] = full["bank_code"] + full["branch_code"] + full["bank_code"][-1]
                 vals.pop("branch_code", None)
+            if c == "bank_code" and "branch_code" in fields and fields["branch_code"][1] - fields["branch_code"][0] > 1:
+                # also: one character longer than the bank field alone (shorter than bank + branch together, so it is not a combined code)
+                v2 = dict(full)
+                v2["bank_code"] = full["bank_code"] + full["bank_code"][-1]
+                res2 = h.from_components(cc, **v2)
+                r_gd.instance(None)
+                if not (res2[0] == "exc" and res2[1].name == ERR[c]):
+                    bad["guard"] += 1
+                    if bad["guard"] <= 4:
+                        got2 = f"raises {res2[1].name}" if res2[0] == "exc" else f"returns {res2[1]!r}"
+                        r_gd.finding(f"from_components[{cc}]:{c}-one-too-long", f"{cc}: a bank_code of {len(v2['bank_code'])} characters (field width {fields[c][1] - fields[c][0]}, "
+                                     f"bank + branch {fields[c][1] - fields[c][0] + fields['branch_code'][1] - fields['branch_code'][0]}) {got2}; expected {ERR[c]}",
+                                     h.bban.methods["from_components"].where, witness={"country": cc, **v2})
             res = h.from_components(cc, **vals)
             r_gd.instance({"country": cc, "component": c, "outcome": res[1].name if res[0] == "exc" else res[1]} if cc == "DE" else None)
             if not (res[0] == "exc" and res[1].name == ERR[c]):
